@@ -308,6 +308,20 @@ def finish(mod, prop: str, args, results: list[dict], inconclusive: list[str],
     for mech in sorted(seen_known):
         lines.append(f'KNOWN-FINDING: property={prop} {mech}: {known_by_mech[mech].get("what", "")}')
     replay_dir = VERIF / 'replays' / prop
+    # one witness per known finding seen in this run (run output, not evidence: replays/ is not
+    # committed; tools/collect_findings.py copies them to findings/ for the record)
+    if seen_known and not args.replay:
+        kdir = replay_dir / 'known'
+        kdir.mkdir(parents=True, exist_ok=True)
+        donek: set[str] = set()
+        for v in violations:
+            m = v['mechanism']
+            if m in known_by_mech and m not in donek:
+                donek.add(m)
+                slug = ''.join(ch if ch.isalnum() or ch in '-_.' else '_' for ch in m)[:120]
+                body = {'property': prop, 'seed': args.seed, 'tier': args.tier, 'mechanism': m,
+                        'message': v['message'], 'detail': v['detail'], 'replay': v['replay']}
+                (kdir / f'{slug}.json').write_text(json.dumps(body, indent=1, default=jdefault, sort_keys=True))
     if new_violations:
         rc = 1
         replay_dir.mkdir(parents=True, exist_ok=True)
